@@ -1,6 +1,7 @@
 import Driver.Util
 import RaftWal.Model.Segment
 import RaftWal.Model.SegmentRun
+import RaftWal.Spec.Format
 namespace Driver
 open RaftWal
 
@@ -12,6 +13,9 @@ structure SegSt where
   w : Writer := default
   sealedInfo : SegInfo := default
   bufSize : Nat := minBufSize
+  /-- README-level history (base, id, codec, batches) while the file has only seen fault-free appends since `new`;
+      `none` once anything else touched it (faults, tears, ForceSeal, damage, recovery) -/
+  spec : Option (Nat × Nat × Nat × List Spec.Batch) := none
   deriving Inhabited
 
 def segErr : SegErr → String
@@ -42,13 +46,18 @@ def segLine0 (st : SegSt) (line : String) : SegSt × String :=
   | ["new", id, base, min, codec, size] =>
     let info := mkInfo id base min "0" codec "0" size false
     if info.base = 0 then ({ st with hasW := false, hasFile := false }, "err other") else
-    ({ st with file := zeros info.sizeLimit, w := Writer.create info, hasW := true, hasFile := true }, "ok")
+    ({ st with file := zeros info.sizeLimit, w := Writer.create info, hasW := true, hasFile := true,
+               spec := some (info.base, info.id, info.codec, []) }, "ok")
   | "app" :: fault :: ents =>
     match ents.mapM parseEntry with
     | none => (st, "bad-op")
     | some es =>
       let (e, w, file) := st.w.append st.file es (parseFault fault)
-      ({ st with w := w, file := file }, match e with | none => "ok" | some e => "err " ++ segErr e)
+      let spec := match st.spec, e, parseFault fault with
+        | some (b, i, c, bs), none, .none =>
+          some (b, i, c, bs ++ [{ payloads := es.map (·.2), sealing := w.sealedW.1 && !st.w.sealedW.1 }])
+        | _, _, _ => none
+      ({ st with w := w, file := file, spec := spec }, match e with | none => "ok" | some e => "err " ++ segErr e)
   | "tear" :: mask :: ents =>
     match ents.mapM parseEntry with
     | none => (st, "bad-op")
@@ -61,10 +70,10 @@ def segLine0 (st : SegSt) (line : String) : SegSt × String :=
         let wrLen := w.writeOffset - wrOff
         let m := mask.toList
         let img := tearImage st.file after wrOff wrLen (fun j => m.getD (j % m.length) '0' == '1')
-        ({ st with file := img, w := default, hasW := false }, "ok")
+        ({ st with file := img, w := default, hasW := false, spec := none }, "ok")
   | ["seal", fault] =>
     let (r, w, file) := st.w.forceSeal st.file (parseFault fault)
-    ({ st with w := w, file := file }, match r with | .ok is => s!"ok {is}" | .error e => "err " ++ segErr e)
+    ({ st with w := w, file := file, spec := none }, match r with | .ok is => s!"ok {is}" | .error e => "err " ++ segErr e)
   | ["sealed"] =>
     let (b, is) := st.w.sealedW
     (st, if b then s!"true {is}" else "false")
@@ -73,22 +82,30 @@ def segLine0 (st : SegSt) (line : String) : SegSt × String :=
     (st, match st.w.getLog st.file (nat! idx) st.bufSize with
       | .ok b => "ok " ++ toHex b
       | .error e => "err " ++ segErr e)
-  | ["file"] => (st, s!"{st.file.length} {(crc32c st.file).toNat}")
+  | ["file"] =>
+    let m := s!"{st.file.length} {(crc32c st.file).toNat}"
+    match st.spec with
+    | some (b, i, c, bs) =>
+      -- the README encoder's bytes for the same batch history, zero-filled to the file's length
+      let l := Spec.layout b i c bs
+      let sf := l ++ zeros (st.file.length - l.length)
+      (st, m ++ " ## " ++ s!"{sf.length} {(crc32c sf).toNat}")
+    | none => (st, m)
   | ["filehex"] => (st, toHex st.file)
   | ["setfile", hex] =>
     match parseHex hex with
     | none => (st, "bad-op")
-    | some b => ({ st with file := b }, "ok")
+    | some b => ({ st with file := b, spec := none }, "ok")
   | ["mut", off, hex] =>
     match parseHex hex with
     | none => (st, "bad-op")
-    | some b => ({ st with file := writeAt st.file (nat! off) b }, "ok")
-  | ["trunc", n] => ({ st with file := st.file.take (nat! n) }, "ok")
+    | some b => ({ st with file := writeAt st.file (nat! off) b, spec := none }, "ok")
+  | ["trunc", n] => ({ st with file := st.file.take (nat! n), spec := none }, "ok")
   | ["recover", id, base, min, codec, size] =>
     let info := mkInfo id base min "0" codec "0" size false
     (match recoverTail info st.file with
-      | .ok (w, file) => ({ st with w := w, file := file, hasW := true }, "ok")
-      | .error e => ({ st with hasW := false }, "err " ++ segErr e))
+      | .ok (w, file) => ({ st with w := w, file := file, hasW := true, spec := none }, "ok")
+      | .error e => ({ st with hasW := false, spec := none }, "err " ++ segErr e))
   | ["opensealed", id, base, min, max, codec, indexStart, size] =>
     let info := mkInfo id base min max codec indexStart size true
     (match openSealed info st.file with
